@@ -73,7 +73,9 @@ class time_limit:
         def handler(signum, frame):
             raise ImplementationTimeout("no result after %s s" % self.seconds)
         self.old = signal.signal(signal.SIGALRM, handler)
-        signal.setitimer(signal.ITIMER_REAL, self.seconds)
+        # repeating: third-party code (Dask's graph optimisation) may swallow the exception once; it is raised again
+        # every second until the block is left
+        signal.setitimer(signal.ITIMER_REAL, self.seconds, 1.0)
 
     def __exit__(self, *a):
         import signal
